@@ -124,6 +124,13 @@ Definition copier_decrypts (g : source) (encrypted : bool) (d : dict) : res bool
 
 Definition is_some {A} (o : option A) : bool := match o with Some _ => true | None => false end.
 
+(* The document cipher applies to stream object r unless the file is
+   unencrypted or r itself is exempt by identity: the catalog's metadata stream
+   when /EncryptMetadata is false (Reader.unencrypted, Writer.refIsPlaintext).
+   The exemption goes by the reference, never by what the dictionary looks like. *)
+Definition cipher_active {A} (ek : option A) (plain : list ref) (r : ref) : bool :=
+  is_some ek && negb (mem r plain).
+
 Section Bytes.
   Variable key : Type.
   Variables enc dec : key -> ref -> list N -> list N.
@@ -131,24 +138,24 @@ Section Bytes.
   Definition crypt_with (f : key -> ref -> list N -> list N) (k : option key) (r : ref) (on : bool) (x : list N) : list N :=
     match k, on with Some k', true => f k' r x | _, _ => x end.
 
-  (* what a reader of a file with document key [ek] sees of stream object r
-     after decryption, before the remaining filters *)
-  Definition payload (g : source) (ek : option key) (r : ref) (d : dict) (disk : list N) : res (list N) :=
-    match reader_decrypts (is_some ek) g d with
+  (* what a reader of a file with document key [ek] and exempt references
+     [plain] sees of stream object r after decryption, before the remaining filters *)
+  Definition payload (g : source) (ek : option key) (plain : list ref) (r : ref) (d : dict) (disk : list N) : res (list N) :=
+    match reader_decrypts (cipher_active ek plain r) g d with
     | Err c => Err c
     | Ok b => Ok (crypt_with dec ek r b disk)
     end.
 
   (* Copier.Copy, *Stream case: the data handed to Writer.Put *)
-  Definition copy_data (g : source) (ek : option key) (r : ref) (d : dict) (disk : list N) : res (list N) :=
-    match copier_decrypts g (is_some ek) d with
+  Definition copy_data (g : source) (ek : option key) (plain : list ref) (r : ref) (d : dict) (disk : list N) : res (list N) :=
+    match copier_decrypts g (cipher_active ek plain r) d with
     | Err c => Err c
     | Ok b => Ok (crypt_with dec ek r b disk)
     end.
 
   (* Writer.Put -> OpenStream: what reaches the target file *)
-  Definition write_data (ver : N) (tk : option key) (g : source) (t : ref) (d : dict) (data : list N) : res (list N) :=
-    match writer_encrypts ver (is_some tk) g d with
+  Definition write_data (ver : N) (tk : option key) (plain : list ref) (g : source) (t : ref) (d : dict) (data : list N) : res (list N) :=
+    match writer_encrypts ver (cipher_active tk plain t) g d with
     | Err c => Err c
     | Ok b => Ok (crypt_with enc tk t b data)
     end.
@@ -156,15 +163,16 @@ End Bytes.
 
 (* the tie: for the target object t, is the data in the target file ciphertext?
    0 no, 1 yes, 3 not a stream / unknown *)
-Definition predict_cipher (src : source) (tr : tr_map) (src_enc tgt_enc : bool) (t : ref) : N :=
+Definition predict_cipher (src : source) (tr : tr_map) (src_enc tgt_enc : bool) (splain tplain : list ref) (t : ref) : N :=
   match find (fun e => N.eqb (snd e) t) tr with
   | None => 3%N
   | Some (s, _) =>
-    match val src (key src s) with
+    let e := key src s in
+    match val src e with
     | OStream d _ =>
       (* the copier must succeed, and the exemption travels with the dictionary *)
-      match copier_decrypts src src_enc d, starts_with_crypt src (dget K_Filter d) with
-      | Ok _, Ok exempt => if tgt_enc && negb exempt then 1%N else 0%N
+      match copier_decrypts src (src_enc && negb (mem e splain)) d, starts_with_crypt src (dget K_Filter d) with
+      | Ok _, Ok exempt => if tgt_enc && negb (mem t tplain) && negb exempt then 1%N else 0%N
       | _, _ => 3%N
       end
     | _ => 3%N
